@@ -939,16 +939,16 @@ func (f *Field) ClearBit(rowID, colID uint64) (changed bool, err error) {
 	}
 	f.mu.RUnlock()
 
-	// Clear non-time bit. A field created with noStandardView has no
-	// standard view, but its time views still have to be cleared.
+	// Clear non-time bit. The standard view can be missing - the field was
+	// created with noStandardView, or so far only time views were written
+	// (a roaring import into a single view) - but the time views still have
+	// to be cleared.
 	if present {
 		if v, err := view.clearBit(rowID, colID); err != nil {
 			return changed, errors.Wrap(err, "clearing on view")
 		} else if v {
 			changed = v
 		}
-	} else if !f.options.NoStandardView {
-		return changed, nil
 	}
 
 	// Clear the bit in every time view. Skipping the finer views below a
